@@ -760,6 +760,13 @@ class Gen:
                 inner = self.branch(cl[2], dict(env, **{v: (v, at[7:-1])}), kt, kf, ret)
                 return f"(optCase {a}\n (fun {v} =>\n {inner})\n ({kf()}))"
             return self.tr(c[1], env, ko, ret)
+        if c[0] in ("call", "mcall", "var"):
+            # a boolean-valued computation (e.g. a call of a translated predicate)
+            def kb(a, at):
+                if at != "bool":
+                    raise Unsupported(f"condition of type {at}")
+                return f"(if ({a} = true) then\n {kt()}\n else\n {kf()})"
+            return self.tr(c, env, kb, ret)
         raise Unsupported(f"condition {c[0]} {c[1] if len(c) > 1 and isinstance(c[1], str) else ''}")
 
     # --- pure expressions (no panic possible): returns (lean, ty)
@@ -769,6 +776,8 @@ class Gen:
             return (f"({e[1]} : Int)", e[2] or "int")
         if e[0] == "var" and e[1] == "None":
             return ("none", "Option<?>")
+        if e[0] == "var" and e[1] in ("true", "false") and e[1] not in env:
+            return (e[1], "bool")
         if e[0] == "var":
             if e[1] in env:
                 return env[e[1]]
@@ -1361,9 +1370,9 @@ class Gen:
                 return self.tr_while(s, env, lambda env2: go(i + 1, env2), ret)
             if s[0] == "for":
                 return self.tr_for(s, env, lambda env2: go(i + 1, env2), ret)
-            if s[0] == "expr" and "authorized" in getattr(self, "reads", {}):
+            if s[0] == "expr" and ("authorized" in getattr(self, "reads", {}) or getattr(self, "store", None)):
                 e = self.strip(s[1])
-                if e[0] == "mcall" and e[2] == "require_auth" and not e[3]:
+                if e[0] == "mcall" and e[2] == "require_auth" and not e[3] and "authorized" in getattr(self, "reads", {}):
                     l, t = self.pure(e[1], env)
                     if t != "Address":
                         raise Unsupported("require_auth of " + t)
@@ -1393,6 +1402,9 @@ class Gen:
                 if self.writer_call(e) is not None:
                     self._writer_ok = True
                     return self.tr(e, env, lambda a, t: go(i + 1, dict(env, **{"$st": (f"{a}.2", "Store")})), ret)
+                if e[0] == "call" and e[1][0] == "var" and (self.cur_ns, e[1][1]) in self.sigs and self.sigs[(self.cur_ns, e[1][1])][1] == "()":
+                    # a translated check called for its panic only (`when_not_paused(e);`)
+                    return self.tr(e, env, lambda a, t: go(i + 1, env), ret)
             if s[0] == "expr":
                 e = self.strip(s[1])
                 if e[0] == "if":
@@ -1719,6 +1731,9 @@ FILES_FUNGIBLE = [("Fungible", "packages/tokens/src/fungible/storage.rs",
                    ["total_supply", "balance", "allowance_data", "allowance", "set_allowance", "spend_allowance", "update",
                     "approve", "transfer", "transfer_from", "mint"]),
                   ("Fungible", "packages/tokens/src/fungible/extensions/burnable/storage.rs", ["burn", "burn_from"])]
+STORE_PAUSABLE = {"Pausable": {"Paused": ([], "bool")}}
+FILES_PAUSABLE = [("Pausable", "packages/contract-utils/src/pausable/storage.rs",
+                   ["paused", "pause", "unpause", "when_not_paused", "when_paused"])]
 FILES_CONS = [("Consecutive", "packages/tokens/src/non_fungible/extensions/consecutive/storage.rs",
                ["find_bit_in_item", "find_bit_in_bucket"])]
 READS_MERKLE = {"Merkle": {"hash_pair": ("fn", ["Bytes32", "Bytes32"], "Bytes32"), "gt": "fn2bool"}}
@@ -2195,7 +2210,9 @@ def main():
                 sys.stdout.write(txt)
         sys.exit(rc)
     try:
-        if "--fungible" in sys.argv:
+        if "--pausable" in sys.argv:
+            txt = translate(repo, FILES_PAUSABLE, reads={"Pausable": {}}, store=STORE_PAUSABLE)
+        elif "--fungible" in sys.argv:
             txt = translate(repo, FILES_FUNGIBLE, reads=READS_FUNGIBLE, structs=STRUCTS_FUNGIBLE, store=STORE_FUNGIBLE,
                             impl_types={"Base": "Fungible"})
         elif "--cons" in sys.argv:
